@@ -1334,7 +1334,7 @@ class BayesianNetwork(DAG):
 
             for cpd in virtual_evidence:
                 var = cpd.variables[0]
-                new_var = "__" + var
+                new_var = "__" + str(var)
                 model.add_edge(var, new_var)
                 values = compat_fns.get_compute_backend().vstack(
                     (cpd.values, 1 - cpd.values)
@@ -1396,7 +1396,7 @@ class BayesianNetwork(DAG):
         # Step 6: Postprocess and return
         if include_latents:
             # Drop the auxiliary variables added for the virtual evidence.
-            aux_vars = ["__" + cpd.variables[0] for cpd in virtual_evidence]
+            aux_vars = ["__" + str(cpd.variables[0]) for cpd in virtual_evidence]
             return samples.drop(columns=aux_vars).astype("category")
         else:
             return (samples.loc[:, list(set(self.nodes()) - self.latents)]).astype(
